@@ -78,6 +78,26 @@ def from_json(sch, t, j, enum_names=False):
     raise ValueError(t)
 
 
+K_NARROW = "reflection-integers-truncated-to-32-bits"
+
+
+def narrow_id_schema(sch, name):
+    """Defect model of known finding K_NARROW as it reaches the C++ run-time codec: the reflection stores
+    field ids as u32, so a struct with a field id outside 0..2^32-1 is loaded with that id reduced mod 2^32
+    and serialized in THAT order.  Returns a Sch in which `name` has its ids reduced, or None when all ids
+    of the struct fit."""
+    import copy
+
+    if all(0 <= f["id"] < 2 ** 32 for f in sch.structs[name]):
+        return None
+    decls = copy.deepcopy(sch.decls)
+    for d in decls:
+        if d["kind"] == "struct" and d["name"] == name:
+            for f in d["fields"]:
+                f["id"] = f["id"] % 2 ** 32
+    return S.Sch(decls)
+
+
 WARMUP_TEXT = 'version: "3"\nstruct Plain { a @0: u8, b @1: i16, }\nimpl can for Plain { id: 3, bus: "w", }\n'
 _first_batch_of_process = True
 
